@@ -261,6 +261,17 @@ theorem posIn_getD : ∀ (l : List Nat) (j : Nat), l.Nodup → j < l.length → 
     unfold posIn
     rw [if_neg hne, posIn_getD r j hn'.2 hj]
 
+/-- the entity stored at index `i` of the whole is read back at its position in the part -/
+theorem reindex_getD_posIn (l : List Nat) (x : Val) (i : Nat) (hi : i ∈ l) :
+    (reindex l x).getD (posIn l i) 0 = x.getD i 0 := by
+  have hlt := posIn_lt l i hi
+  have hget := getD_posIn l i hi
+  unfold reindex
+  rw [List.getD_eq_getElem?_getD, List.getElem?_map, List.getElem?_eq_getElem hlt]
+  rw [List.getD_eq_getElem?_getD, List.getElem?_eq_getElem hlt] at hget
+  simp only [Option.getD_some] at hget
+  simp only [Option.map_some, Option.getD_some, hget]
+
 /-- for a kept group, "its position is `j`" and "it is the `j`-th kept group" are the same -/
 theorem posIn_eq_iff (l : List Nat) (hn : l.Nodup) (g j : Nat) (hg : g ∈ l) (hj : j < l.length) :
     posIn l g = j ↔ g = l.getD j 0 := by
